@@ -19,14 +19,14 @@ MANIFEST = {
     'ref': '5 C07'}
 BOUNDS = {
     'quick': dict(structured='singles and 16 ordered pairs of message types (thorough: all 49), symbolic fields, data blob of '
-                             'symbolic length < 2^64, ext lists 0..1; one symbolic cut position anywhere',
+                             'symbolic length < 2^64, ext lists 0..2 on the first message; one symbolic cut position anywhere',
                   raw='1..2 fully symbolic octets in-connection; contact phase 1..7 symbolic octets; every cut'),
     'thorough': dict(structured='pairs and selected triples, ext lists 0..2', raw='up to 4 symbolic octets in-connection, 10 in the contact phase'),
 }
 ASSUMPTIONS = [
     'the peer stream is read in exactly two chunks (one cut); each read is below CHUNK_SIZE',
     'structured streams are well-formed per RFC 9174; raw streams are arbitrary octets',
-    'node id text is concrete ASCII',
+    'node id text is concrete (ASCII, multi-octet UTF-8, empty)',
 ]
 REQUIRED_CLASSES = {'all': ['acted', 'partial']}
 QUICK_VALIDATE = 4
@@ -67,7 +67,7 @@ def sym_message(c, kind, ix, tier):
         ln = c.sym_int(p + 'dlen', 0, 2 ** 64 - 1, size=True)
         ext = []
         if bool((flags & 2) != 0):
-            nmax = 1 if tier == 'quick' else 2
+            nmax = 2 if (tier != 'quick' or ix == 0) else 1
             n = c.choose(nmax + 1, 'ext-count')
             for j in range(n):
                 ext.append(dict(flags=c.sym_int(p + 'ef%d' % j, 0, 255), type=1,
@@ -87,12 +87,14 @@ def sym_message(c, kind, ix, tier):
         return dict(kind=kind, reason=c.sym_int(p + 'reason', 1, 3), rejected=c.sym_int(p + 'rej', 0, 255))
     if kind == 'SESS_INIT':
         ext = []
-        n = c.choose(2, 'sext-count')
+        n = c.choose(3 if (tier != 'quick' or ix == 0) else 2, 'sext-count')
         for j in range(n):
             ext.append(dict(flags=c.sym_int(p + 'ef%d' % j, 0, 255), type=0xFF,
                             value=c.sym_bytes(p + 'ev%d' % j, 10)))
+        # node IDs: ASCII, with multi-octet UTF-8 characters, empty
+        nid = ['dtn://peer/', 'dtn://n\u00f6de/\u20ac', ''][c.choose(3, 'node-id')]
         return dict(kind=kind, keepalive=c.sym_int(p + 'ka', 0, 65535), segment_mru=c.sym_int(p + 'smru', 0, 2 ** 64 - 1),
-                    transfer_mru=c.sym_int(p + 'tmru', 0, 2 ** 64 - 1), node_id=b'dtn://peer/', ext=ext)
+                    transfer_mru=c.sym_int(p + 'tmru', 0, 2 ** 64 - 1), node_id=nid.encode('utf-8'), node_text=nid, ext=ext)
     raise ValueError(kind)
 
 
@@ -260,6 +262,9 @@ def compare_fields(c, pkt, m):
         c.prove(fv('segment_mru') == m['segment_mru'], 'oracle:init-segment-mru')
         c.prove(fv('transfer_mru') == m['transfer_mru'], 'oracle:init-transfer-mru')
         c.prove(same_bytes(p.getfieldval('nodeid_data'), m['node_id']), 'oracle:init-node-id')
+        ext = p.getfieldval('ext_items') or []
+        c.prove(len(ext) == len(m['ext']) and all(type(e).__name__ == 'SessionExtendHeader' for e in ext), 'oracle:init-ext-count',
+                detail=dict(impl=[type(e).__name__ for e in ext], oracle=len(m['ext'])))
 
 
 def codec_roundtrip(c, case, tier):
@@ -289,7 +294,7 @@ def codec_roundtrip(c, case, tier):
             largeval=rfc9174.unpack_uint(SBuf.of(e['value'])[0].items[:8]),
             smallval=rfc9174.unpack_uint(SBuf.of(e['value'])[0].items[8:])) for e in m['ext']]
         pkt = H() / messages.SessionInit(keepalive=m['keepalive'], segment_mru=m['segment_mru'],
-                                         transfer_mru=m['transfer_mru'], nodeid_data='dtn://peer/', ext_items=ext)
+                                         transfer_mru=m['transfer_mru'], nodeid_data=m['node_text'], ext_items=ext)
     octets = rt.b_bytes(pkt)
     want = rfc9174.encode(m)
     ok = c.prove(same_bytes(octets, want), 'codec:impl-encoding-equals-rfc[%s]' % t,
